@@ -447,6 +447,8 @@ class Emitter:
         self.rewrites = []     # logged rule applications
         self.functions = []    # fn descriptors for evidence
         self.degraded = []     # sidecar annotations that could not be placed (source changed shape)
+        self.inventory = {}    # fnkey -> {closures: [callee..], loops: n} as found in the current source
+        self.baseline = {}     # the same, recorded when the contracts were written (contracts/BASELINE.json)
     def add(self, text):
         for l in text.split("\n"):
             self.lines.append(l)
@@ -585,6 +587,22 @@ def instantiate_fn(fs, item, em):
             k += 1
         # ---- closures
         cls = find_closures(toks, lo, hi)
+        em.inventory[fnkey] = {"closures": [x["callee"] for x in cls], "loops": len(find_loops(toks, lo, hi))}
+        # did a closure or loop appear that was not there when the contracts were written?  If not, an annotation whose
+        # construct (closure, loop, iterator chain) has disappeared is ORPHANED: it described code that is gone, nothing
+        # took its place that would need it, and it does not make failures in this function undecided.
+        _base = em.baseline.get(fnkey)
+        took_place = True
+        if _base is not None:
+            _rest = list(_base["closures"]); _added = []
+            for _c in sorted(x["callee"] for x in cls):
+                if _c in _rest:
+                    _rest.remove(_c)
+                else:
+                    _added.append(_c)
+            took_place = bool(_added) or em.inventory[fnkey]["loops"] > _base["loops"]
+        def _gone(msg):
+            degraded.append(msg if took_place else "orphan: " + msg)
         for n, spec in sorted(fs.closures.items(), key=lambda kv: str(kv[0])):
             if isinstance(n, int):
                 if n < 1 or n > len(cls):
@@ -596,7 +614,10 @@ def instantiate_fn(fs, item, em):
                 cord = int(cord or 1)
                 cand = [x for x in cls if x["callee"] == cname]
                 if len(cand) < cord:
-                    degraded.append("closure %s not found (closures in this function: %s)" % (n, [x["callee"] for x in cls]))
+                    if cand:
+                        degraded.append("closure %s not found (closures in this function: %s)" % (n, [x["callee"] for x in cls]))
+                    else:
+                        _gone("closure %s not found (closures in this function: %s)" % (n, [x["callee"] for x in cls]))
                     continue
                 c = cand[cord - 1]
             names = []
@@ -647,11 +668,46 @@ def instantiate_fn(fs, item, em):
             else:
                 edits.append((b1.start, hdr_end, header + ctext + "{ "))
                 edits.append((toks[c["body_end"]].end, toks[c["body_end"]].end, " }"))
+        # ---- pre-pass: which hints can be placed; ghost names declared by hints that cannot are "lost", and every hint,
+        # loop-invariant clause or subst text that mentions a lost ghost name is dropped with it (degraded), so that a
+        # source change that removes one anchor does not turn the remaining hints into compile errors
+        def _anchor_found(anchor, nth):
+            apat = r"\s+".join(re.escape(w) for w in anchor.split())
+            body_lo = toks[lo].start
+            ms = [m for m in re.finditer(apat, text) if m.start() >= body_lo]
+            return len(ms) > nth
+        decl_re = re.compile(r"let\s+ghost\s+(?:mut\s+)?(\w+)")
+        lost_names = set()
+        dropped_anchors = set()
+        lps_pre = find_loops(toks, lo, hi)
+        for ai, (kind, anchor, nth, atext) in enumerate(fs.anchors):
+            if not _anchor_found(anchor, nth):
+                lost_names.update(decl_re.findall(atext))
+        for n, spec in fs.loops.items():
+            if n < 1 or n > len(lps_pre):
+                lost_names.update(decl_re.findall(spec.get("body") or ""))
+                if spec.get("iter"):
+                    lost_names.add(spec["iter"])
+        changed = True
+        def _mentions_lost(t):
+            return sorted(nm for nm in lost_names if re.search(r"\b%s\b" % re.escape(nm), t))
+        while changed and lost_names:
+            changed = False
+            for ai, (kind, anchor, nth, atext) in enumerate(fs.anchors):
+                if ai in dropped_anchors or not _anchor_found(anchor, nth):
+                    continue
+                ml = _mentions_lost(atext)
+                if ml:
+                    dropped_anchors.add(ai)
+                    degraded.append("hint at %r dropped: it mentions ghost %s declared by a hint that could not be placed" % (anchor, ml))
+                    new_l = set(decl_re.findall(atext)) - lost_names
+                    if new_l:
+                        lost_names.update(new_l); changed = True
         # ---- loops
         lps = find_loops(toks, lo, hi)
         for n, spec in sorted(fs.loops.items()):
             if n < 1 or n > len(lps):
-                degraded.append("loop %d not found (function has %d loops)" % (n, len(lps)))
+                _gone("loop %d not found (function has %d loops)" % (n, len(lps)))
                 continue
             L = lps[n - 1]
             if L["kw"] == "for" and spec.get("iter"):
@@ -664,6 +720,9 @@ def instantiate_fn(fs, item, em):
                     ltxt.append(kind)
                     for ci, cexpr in enumerate(split_top(spec[kind]), 1):
                         obid = "%s#loop%d%s%d" % (fnkey, n, kind[:3], ci)
+                        if _mentions_lost(cexpr):
+                            degraded.append("loop %d %s clause %d dropped: it mentions lost ghost %s" % (n, kind, ci, _mentions_lost(cexpr)))
+                            continue
                         ltxt.append("    %s,  /*@ob %s*/" % (cexpr, obid))
                         em._pending.append({"id": obid, "kind": "loop-" + kind, "fn": fnkey, "tags": [t for t in fs.tags if t != "C16"],
                                             "text": cexpr, "marker": obid})
@@ -761,7 +820,7 @@ def instantiate_fn(fs, item, em):
                             break
                     k += 1
                 if not found:
-                    degraded.append("extend rule: statement %d not found" % n)
+                    _gone("extend rule: statement %d not found" % n)
             elif rule in ("iter_any", "iter_all", "iter_position", "iter_find_map"):
                 meth = rule[5:]
                 cnt = 0
@@ -803,7 +862,7 @@ def instantiate_fn(fs, item, em):
                             break
                     k += 1
                 if not found:
-                    degraded.append("%s rule: occurrence %d not found" % (rule, n))
+                    _gone("%s rule: occurrence %d not found" % (rule, n))
             elif rule == "fold":
                 # RECV.into_iter().fold(INIT, CL)   (R-fold: definition of Iterator::fold)
                 cnt = 0
@@ -850,7 +909,7 @@ def instantiate_fn(fs, item, em):
                             break
                     k += 1
                 if not found:
-                    degraded.append("fold rule: occurrence %d not found" % n)
+                    _gone("fold rule: occurrence %d not found" % n)
             elif rule in ("filter_collect", "map_collect"):
                 # RECV.into_iter().filter(CL).collect()  /  RECV.into_iter().map(CL).collect()
                 # (R-filter-collect / R-map-collect: definitions of Iterator::filter|map + collect into Vec)
@@ -900,7 +959,7 @@ def instantiate_fn(fs, item, em):
                             break
                     k += 1
                 if not found:
-                    degraded.append("%s rule: occurrence %d not found" % (rule, n))
+                    _gone("%s rule: occurrence %d not found" % (rule, n))
             elif rule == "filter_map_collect_result":
                 # RECV.into_iter().filter(F).map(G).collect()   where the collect target is Result<Vec<T>, E> and the
                 # expression is the function's result:  loop { if F(&x) { out.push(G(x)?) } } Ok(out)
@@ -949,7 +1008,7 @@ def instantiate_fn(fs, item, em):
                             break
                     k += 1
                 if not found:
-                    degraded.append("filter_map_collect_result rule: occurrence %d not found" % n)
+                    _gone("filter_map_collect_result rule: occurrence %d not found" % n)
             elif rule == "for_each":
                 # ITER.for_each(|x| { BODY });   ->   for x in it: ITER invariant .. { BODY }   (R-for-each)
                 cnt = 0
@@ -989,7 +1048,7 @@ def instantiate_fn(fs, item, em):
                             break
                     k += 1
                 if not found:
-                    degraded.append("for_each rule: occurrence %d not found" % n)
+                    _gone("for_each rule: occurrence %d not found" % n)
             elif rule == "collect_result":
                 # X.iter().cloned().map(F).collect::<Result<Vec<T>, E>>()?   (R-collect-result)
                 cnt = 0
@@ -1035,7 +1094,7 @@ def instantiate_fn(fs, item, em):
                             break
                     k += 1
                 if not found:
-                    degraded.append("collect_result rule: occurrence %d not found" % n)
+                    _gone("collect_result rule: occurrence %d not found" % n)
             elif rule == "rename_local":
                 # rule rename_local :: old :: new :: "anchor text that contains the binding occurrence" :: why
                 # alpha-renaming: the identifier token `old` at the anchor and every later occurrence in the body
@@ -1069,13 +1128,17 @@ def instantiate_fn(fs, item, em):
                 idx = text.find(frm)
                 if idx < 0 or text.find(frm, idx + 1) >= 0:
                     degraded.append("subst rule: %r does not occur exactly once" % frm)
+                elif _mentions_lost(to):
+                    degraded.append("subst rule %r dropped: its replacement mentions lost ghost %s" % (frm, _mentions_lost(to)))
                 else:
                     edits.append((idx, idx + len(frm), to))
                     log.append("R-subst: %r -> %r (%s)" % (frm, to, why))
             else:
                 raise GenError("%s: unknown rule %s" % (fnkey, rule))
         # ---- anchors
-        for kind, anchor, nth, atext in fs.anchors:
+        for ai, (kind, anchor, nth, atext) in enumerate(fs.anchors):
+            if ai in dropped_anchors:
+                continue
             # whitespace in an anchor matches any run of whitespace (so an anchor may span lines)
             apat = r"\s+".join(re.escape(w) for w in anchor.split())
             ms = [m for m in re.finditer(apat, text)]
